@@ -24,7 +24,7 @@ def budget(tier):
 
 
 def strategy(tier):
-    general = gen_spec(**{**tier_opts(tier), **dict(allow_rels=False, allow_nm=True)})
+    general = gen_spec(**{**tier_opts(tier), **dict(allow_rels=True, allow_rdep=True, allow_nm=True)})
     # one case in five is a condition() block reached through a guarded call chain (C12's generator): its branches
     # are nested transactions, for which this property demands: a condition() branch (a nested transaction) never runs in a cycle where its enclosing body does not run
     cond = c12.strategy(tier).map(lambda sp: {"gen": "condition", "spec": sp})
